@@ -118,6 +118,10 @@ def run_case(ctx, g, rng):
                 call(cc.is_curie, s)
                 call(cc.compress_or_standardize, s)
                 call(cc.expand_or_standardize, s)
+                call(cc.parse_uri, s)
+                call(cc.parse_curie, s)
+                call(cc.compress, s)
+                call(cc.expand, s)
 
             c, how = grow_while_asking(api, recs, d, rng, ask, strings), "asked-while-growing"
         else:
